@@ -346,4 +346,19 @@ def fileText (seqName : Str) (fs : List Feature) : Option Str :=
   | none => none
   | some strs => some (join '\n' ((">Features ".toList ++ seqName) :: strs) ++ ['\n'])
 
+/-- the whole output of one `collection_to_tbl` call over several collections -/
+def filesText (colls : List (Str × List Feature)) : Option Str :=
+  match colls.mapM (fun c => fileText c.1 c.2) with
+  | none => none
+  | some ts => some ts.flatten
+
+/-- the locus tags of one call, per collection (`counts` = genes per collection): `locus_tag_offset` is set to 0
+    once, before the loop over the collections -/
+def collectionTagsFrom (pre : Str) (step : Int) : Int → List Nat → List (List Str)
+  | _, [] => []
+  | off, n :: rest => locusTagsFrom pre step off n :: collectionTagsFrom pre step (off + step * n) rest
+
+def collectionTags (pre : Str) (step : Int) (counts : List Nat) : List (List Str) :=
+  collectionTagsFrom pre step 0 counts
+
 end BioCantor.Model.Tbl
